@@ -271,7 +271,9 @@ thread_local! {
 
 pub fn gen_program(r: &mut Rng, tier: Tier) -> (Vec<u8>, &'static str) {
     let roll = r.below(100);
-    if roll < 60 {
+    if roll < 1 {
+        (workload::gen_wide(r), "wide_fan_out")
+    } else if roll < 60 {
         (workload::gen_storage(r), "storage")
     } else if roll < 80 {
         (workload::gen_stack(r, false), "stack")
